@@ -6,6 +6,7 @@ HARNESSES = {
     "c11": {"src": _C11_SRC, "variant": "prod"},
     # stand-alone reproducers of the known findings (not part of the check; `bin/vcheck harness c11_repro`)
     "c11_repro": {"src": ["harness/c11_repro.cc"], "variant": "prod"},
+    "c11_repro_i8": {"src": ["harness/c11_repro_i8.cc"], "variant": "i8"},
     # part 2: the same lock-step source against the mpz build and the checked-integer builds
     "c11_ls_prod": {"src": ["harness/c11_lockstep.cc"], "variant": "prod", "flags": NOAC},
     "c11_ls_i8": {"src": ["harness/c11_lockstep.cc"], "variant": "i8", "flags": NOAC},
@@ -21,10 +22,10 @@ def _runs(tier):
     # runs execute in order (parallel_runs = 1): the bounded builds write their answers into the run directory,
     # the mpz build then recomputes every history and compares
     for b in builds:
-        runs.append({"harness": "c11_ls_" + b, "args": ["--mode", "emit", "--label", b, "--depth", depth, "--ans", "c11_answers_%s.txt" % b],
+        runs.append({"harness": "c11_ls_" + b, "args": ["--mode", "emit", "--label", b, "--depth", depth, "--ans", "c11_answers_%s" % b],
                      "budget": 120 if quick else 900})
     runs.append({"harness": "c11_ls_prod", "args": ["--mode", "compare", "--depth", depth, "--labels", ",".join(builds),
-                                                    "--ans", ",".join("c11_answers_%s.txt" % b for b in builds)],
+                                                    "--ans", ",".join("c11_answers_%s" % b for b in builds), "--cleanup"],
                  "budget": 200 if quick else 1500})
     return runs
 CHECKS = {
